@@ -43,7 +43,7 @@ impl Check for HistCheck {
     }
     fn assumptions(&self) -> Vec<String> {
         vec![
-            "matcher configuration and per-column CaseMatching/Normalization are fixed for the lifetime of a history (update_config is outside the claim)".into(),
+            "the matcher configuration is fixed for the lifetime of a history (update_config is outside the claim); per-column CaseMatching/Normalization change only through ReparseMode (same text, append = false)".into(),
             "append hints are truthful; iterators passed to extend are honest in these histories (lying iterators never let the matcher become idle and are exercised by C08/C11)".into(),
             "pool threads inside a parallel section run uncontrolled except for the ordered in-flight pushes and one held item".into(),
         ]
